@@ -14,6 +14,13 @@
 //	FireRun(t)     Fire immediately followed by RunFired (keeps the common case one event deep)
 //	AdvCall        (reply configuration) virtual now jumps exactly onto the next deadline of a kept Reply function
 //
+// Two further dimensions belong to the APPLICATION / ENVIRONMENT side of the engine's interface:
+//
+//	shared config  ("reuse") the application owns one ndn.InterestConfig struct and re-uses it: every Express
+//	               overwrites its fields in place, Recfg events overwrite them while Interests are pending
+//	Down / Up      ("fault", "faultd") the face goes down (Engine.Stop) and comes back (Engine.Start): while it
+//	               is down Express fails to send and returns an error, nothing arrives
+//
 // This reproduces, sequentially and deterministically, every interleaving of timeout goroutines
 // with the receive path that the engine's pitLock allows (the lock makes onData/onNack/timeoutFunc
 // atomic with respect to each other, so interleavings at whole-callback granularity are all there
@@ -21,7 +28,9 @@
 // on the caller's stack (engine.go has no `go` statement), so nothing else needs to be owned.
 //
 // Oracle: black box (callback log, wires on the face, handler invocations). The white-box hook
-// (hooks/std/engine/basic/verif_c20.go: trie dumps, node→root chains) is used for the canonical
+// (hooks/std/engine/basic/verif_c20.go: trie dumps, node→root chains; the private fields of a
+// pending-Interest record are read by name through reflection, a field that does not exist shows
+// as "<absent>" instead of breaking the build) is used for the canonical
 // state and to give violations root-cause-level keys (which kind of event made a pending
 // Interest unreachable from the PIT root / a handler vanish from the FIB); a violation is only
 // ever raised by an externally visible event (a Data that does not resolve a pending Interest it
@@ -41,6 +50,7 @@ import (
 	"crypto/sha256"
 	"errors"
 	"fmt"
+	"os"
 	"sort"
 	"strings"
 	"time"
@@ -186,6 +196,11 @@ type intr struct {
 	// simply won the race against the rest of MoveForward.
 	retry string
 	gen   int
+	// failed: Express returned an error (the face refused the frame: fault configurations). The
+	// property speaks of Interests "an application expresses"; whether an Interest whose Express was
+	// refused counts is not stated, so for it every clause is read as "may": its callback may be
+	// invoked (at most once, with a legal result) or never, a Data it would match may resolve it.
+	failed bool
 }
 
 func (x *intr) desc() string {
@@ -203,6 +218,9 @@ func (x *intr) desc() string {
 	}
 	if x.gen > 0 {
 		r += fmt.Sprintf(",re-expression #%d", x.gen)
+	}
+	if x.failed {
+		r += ",Express returned an error (face down)"
 	}
 	return fmt.Sprintf("Interest(%s%s%s,%v%s)", x.name, c, d, x.life, r)
 }
@@ -243,6 +261,14 @@ type inst struct {
 	deferred []*intr // re-expressions queued by callbacks
 	ref      *inst   // dummy configuration only: shadow run of the same events on the harness timer
 	dmRan    []int   // dummy configuration only: events dummy.Timer ran during the current step, by Schedule sequence number, in order
+	// shared-config style (cfgT.shared): the application owns ONE ndn.InterestConfig (and one lifetime
+	// variable its Lifetime field points to) and re-uses it for every Interest: it sets the fields for
+	// the Interest at hand, calls MakeInterest + Express, and later overwrites them (next Express, or
+	// a Recfg event = preparing the next Interest without expressing it yet).
+	shared  bool
+	appCfg  *ndn.InterestConfig
+	appLife time.Duration
+	down    bool // the face is down (Engine.Stop was called): Send fails, nothing arrives
 }
 
 func (in *inst) bad(clause, key, detail string) {
@@ -393,6 +419,8 @@ type cfgT struct {
 	retries   []string // extra Express variants whose callback re-expresses once on timeout/Nack ("late", "early")
 	dummy     bool     // drive the engine with the repository's dummy.Timer and shadow it on the harness timer
 	audit     bool     // canon audit: no de-duplication (the history is part of the canonical state)
+	shared    bool     // application style: one InterestConfig struct re-used (and mutated) for every Express; Recfg events
+	faults    bool     // fault events: Down (Engine.Stop: the face refuses to send, deviation) / Up (Engine.Start)
 }
 
 type sys struct {
@@ -404,6 +432,14 @@ func (s *sys) newInst(dm *dummy.Timer) *inst {
 	in := &inst{face: &hFace{}, tm: &hTimer{now: time.Unix(1000, 0), curOwner: -1, dm: dm},
 		attached: map[string]int{}, fibLost: map[string]string{}, seen: map[string]bool{}}
 	in.tm.in = in
+	in.shared = s.c.shared
+	if in.shared {
+		in.appCfg = &ndn.InterestConfig{}
+		in.appCfg.Lifetime = &in.appLife
+		if len(s.c.lives) > 0 {
+			in.appLife = time.Duration(s.c.lives[0]) * ms
+		}
+	}
 	if dm != nil {
 		in.tm.now = dm.Now()
 	}
@@ -449,7 +485,32 @@ func (s *sys) Ops(i any) []explore.Op {
 			}
 		}
 	}
-	if len(in.ints) > 0 {
+	if c.shared {
+		// the application overwrites its config struct while Interests made from it are pending
+		pend := false
+		for _, x := range in.ints {
+			if len(x.res) == 0 {
+				pend = true
+			}
+		}
+		if pend {
+			for _, cb := range c.cbps {
+				for _, l := range c.lives {
+					if cb != in.appCfg.CanBePrefix || time.Duration(l)*ms != in.appLife {
+						add("Recfg(cbp=%v,life=%d)", cb, l)
+					}
+				}
+			}
+		}
+	}
+	if c.faults {
+		if in.down {
+			add("Up")
+		} else {
+			ops = append(ops, explore.Op{Name: "Down", Dev: true})
+		}
+	}
+	if len(in.ints) > 0 && !in.down {
 		for _, n := range c.dataNames {
 			add("Data(%s)", n)
 		}
@@ -506,7 +567,7 @@ func (s *sys) Ops(i any) []explore.Op {
 			add("Detach(%s)", p)
 		}
 	}
-	if in.nIn < c.maxIn {
+	if in.nIn < c.maxIn && !in.down {
 		for _, n := range c.inNames {
 			for _, l := range c.inLives {
 				ls := fmt.Sprint(l)
@@ -634,7 +695,7 @@ func (s *sys) step(in *inst, op string) []report.Violation {
 		d := dataFor(a[0])
 		var must []*intr
 		for _, x := range in.ints {
-			if len(x.res) == 0 && s.satisfies(x, a[0], d) {
+			if len(x.res) == 0 && !x.failed && s.satisfies(x, a[0], d) {
 				must = append(must, x)
 			}
 		}
@@ -657,6 +718,27 @@ func (s *sys) step(in *inst, op string) []report.Violation {
 	case "Nack":
 		in.curName = a[0]
 		in.face.onPkt(enc.NewBufferReader(nackWire(a[0])))
+	case "Recfg":
+		// the application writes the selectors of its NEXT Interest into the config struct it re-uses
+		if !in.shared {
+			report.Fatal("harness: %s in a configuration without a shared InterestConfig", op)
+		}
+		var l int
+		fmt.Sscanf(a[1], "life=%d", &l)
+		in.appCfg.CanBePrefix = a[0] == "cbp=true"
+		in.appCfg.MustBeFresh = in.appCfg.CanBePrefix
+		in.appLife = time.Duration(l) * ms
+	case "Down":
+		// fault: the face goes down (Engine.Stop closes it); until Up every Send fails and nothing arrives
+		if err := in.eng.Stop(); err != nil || in.face.running {
+			report.Fatal("harness: Engine.Stop on a running harness face: err=%v running=%v", err, in.face.running)
+		}
+		in.down = true
+	case "Up":
+		if err := in.eng.Start(); err != nil || !in.face.running {
+			report.Fatal("harness: Engine.Start on a stopped harness face: err=%v running=%v", err, in.face.running)
+		}
+		in.down = false
 	case "Adv":
 		in.tm.now = in.tm.now.Add(10 * ms)
 		if in.tm.dm != nil {
@@ -819,6 +901,8 @@ func (s *sys) step(in *inst, op string) []report.Violation {
 			how = "an Interest that arrived in an LpPacket"
 		}
 		switch {
+		case in.tm.now.Before(h.deadline) && in.down:
+			// the face is down: nothing can be transmitted, whatever the engine answers is accepted
 		case in.tm.now.Before(h.deadline):
 			if !sent || err != nil {
 				in.bad("C20.deadline", "reply before the deadline not transmitted", fmt.Sprintf("Reply for Interest %s (%s) %v before its deadline: err=%v, transmitted=%v", h.name, how, h.deadline.Sub(in.tm.now), err, sent))
@@ -878,14 +962,34 @@ func (in *inst) express(x *intr) {
 	in.ints = append(in.ints, x)
 	in.tm.curOwner = x.id
 	var err error
-	if x.gen > 0 {
-		err = in.eng.Express(mkInterest(full, x.cbp, x.life, uint64(x.gen)), in.callback(x))
-	} else {
-		err = in.eng.Express(mkInterest(full, x.cbp, x.life), in.callback(x))
+	var ei *ndn.EncodedInterest
+	switch {
+	case in.shared:
+		// one config struct per application: set the fields for this Interest in place
+		in.appCfg.CanBePrefix = x.cbp
+		in.appCfg.MustBeFresh = x.cbp
+		in.appLife = x.life
+		in.appCfg.Nonce = nil
+		if x.gen > 0 {
+			g := uint64(x.gen)
+			in.appCfg.Nonce = &g
+		}
+		var e2 error
+		if ei, e2 = (spec.Spec{}).MakeInterest(full, in.appCfg, nil, nil); e2 != nil {
+			report.Fatal("MakeInterest(%s): %v", full, e2)
+		}
+	case x.gen > 0:
+		ei = mkInterest(full, x.cbp, x.life, uint64(x.gen))
+	default:
+		ei = mkInterest(full, x.cbp, x.life)
 	}
+	err = in.eng.Express(ei, in.callback(x))
 	in.tm.curOwner = -1
 	if err != nil {
-		report.Fatal("Express(%s) on a running harness face failed: %v", x.name, err)
+		if !in.down {
+			report.Fatal("Express(%s) on a running harness face failed: %v", x.name, err)
+		}
+		x.failed = true
 	}
 	x.node = in.eng.VerifPitExact(x.nm)
 	if ch := basic.VerifPitChain(x.node); len(ch) > 0 && len(ch[0].Entries) > 0 {
@@ -953,6 +1057,10 @@ func (s *sys) track(in *inst) {
 			// lost because a node on that path was pruned although it still had children.
 			above := r == "a shorter (ancestor) name" || r == "an unrelated name"
 			switch {
+			case in.curKind == "Express" && in.down:
+				x.lostBy = "its entry left the PIT when a later Express for " + r + " failed to send (face down)"
+			case in.curKind == "Down" || in.curKind == "Up":
+				x.lostBy = "its entry left the PIT when the face went " + strings.ToLower(in.curKind) + " (Engine.Stop/Start)"
 			case in.curKind == "stale timeout":
 				x.lostBy = "its PIT node was removed by the timeout of an earlier Interest whose own node had already been detached (stale node prunes by key)"
 			case (in.curKind == "Data" || in.curKind == "timeout") && above:
@@ -1120,8 +1228,15 @@ func (s *sys) CheckState(i any) []report.Violation {
 		in.runTimer(nx)
 	}
 	for _, x := range in.ints {
-		if len(x.res) == 0 {
-			in.bad("C20.once", "callback never invoked although every timer has fired and run", fmt.Sprintf("%s expressed, all timers fired and run, callback count 0", x.desc()))
+		if len(x.res) == 0 && !x.failed {
+			k, why := "callback never invoked although every timer has fired and run", ""
+			if x.lostBy != "" {
+				why = " (" + x.lostBy + ")"
+				if strings.Contains(x.lostBy, "failed to send") {
+					k += "; " + x.lostBy
+				}
+			}
+			in.bad("C20.once", k, fmt.Sprintf("%s expressed, all timers fired and run, callback count 0%s", x.desc(), why))
 		}
 	}
 	if in.ref != nil {
@@ -1145,8 +1260,14 @@ func relMs(d time.Duration) string {
 func (in *inst) entryDesc(byEntry map[any]*intr, e any) string {
 	x := byEntry[e]
 	if x == nil {
+		// an entry the model cannot attribute to an Interest: described from the record's private fields
+		// (read by name through reflection; a field this tree does not have shows as "<absent>")
 		inf := basic.VerifPitEntryInfo(e)
-		return fmt.Sprintf("?%v,%v,%s", inf.CanBePrefix, inf.HasDigest, relMs(inf.Deadline.Sub(in.tm.now)))
+		dl := basic.VerifAbsent
+		if inf.HasDeadline {
+			dl = relMs(inf.Deadline.Sub(in.tm.now))
+		}
+		return fmt.Sprintf("?%s,%s,%s,%s", inf.CanBePrefix, inf.HasDigest, dl, inf.Other)
 	}
 	return in.intrDesc(x)
 }
@@ -1156,7 +1277,11 @@ func (in *inst) intrDesc(x *intr) string {
 	for _, r := range x.res {
 		ks += r.kind[:1]
 	}
-	return fmt.Sprintf("%s,%v,%s,%s,[%s],%s,%s%d", x.name, x.cbp, x.dig, relMs(x.at.Add(x.life).Sub(in.tm.now)), ks, x.lostBy, x.retry, x.gen)
+	f := ""
+	if x.failed {
+		f = "!"
+	}
+	return fmt.Sprintf("%s,%v,%s,%s,[%s],%s,%s%d%s", x.name, x.cbp, x.dig, relMs(x.at.Add(x.life).Sub(in.tm.now)), ks, x.lostBy, x.retry, x.gen, f)
 }
 
 func (in *inst) nodeDesc(byEntry map[any]*intr, n basic.VerifPitNode) string {
@@ -1176,6 +1301,9 @@ func (in *inst) nodeDesc(byEntry map[any]*intr, n basic.VerifPitNode) string {
 //     or detached at each level, child count, entries): that is all Delete/DeleteIf on it can touch;
 //   - every pending Interest with the same chain for its node (covers entries in detached nodes);
 //   - the number of Interests expressed (bounds the alphabet);
+//   - shared-config style: the current content of the application's config struct (the engine may hold
+//     a reference to it); fault configurations: whether the face is down, and per Interest whether
+//     its Express returned an error;
 //   - the reachable FIB trie, the model's attached map, pending handler invocations (handler,
 //     name, deadline relative to now with sign preserved, InterestLifetime form and link framing
 //     of the Interest) and the count of Interests received.
@@ -1248,6 +1376,13 @@ func (s *sys) Canon(i any) string {
 	}
 	// call ids are positional (Reply(h<id>)), keep list order
 	fmt.Fprintf(&b, "#C%s#i%d", strings.Join(cs, "|"), in.nIn)
+	if in.shared {
+		// the application's config struct: a reference the engine may have kept points at it
+		fmt.Fprintf(&b, "#S%v,%d", in.appCfg.CanBePrefix, in.appLife/ms)
+	}
+	if in.down {
+		b.WriteString("#down")
+	}
 	if s.c.audit {
 		b.WriteString("#H" + strings.Join(in.hist, ";"))
 	}
@@ -1306,6 +1441,22 @@ var configs = map[string]cfgT{
 	// Interests for its own name and for a longer one
 	"reply": {prefixes: []string{"/a"}, inNames: []string{"/a", "/a/b"}, inLives: []int{-1, 0, 10, 20}, inFrames: []string{"", "plain", "tok"},
 		maxIn: 2, adv10: true, advCall: true},
+	// application memory re-use: ONE InterestConfig struct (and one lifetime variable behind its
+	// Lifetime pointer) per application, overwritten in place for every Express and by Recfg events
+	// (every other CanBePrefix/lifetime combination) while earlier Interests made from it are still
+	// pending. What an Interest matches and when it times out is fixed when it is expressed; Data with
+	// the exact and with longer names then tells whether a pending Interest changed its mind.
+	"reuse": {shared: true, names: n2, cbps: []bool{false, true}, lives: []int{10, 20}, digs: []string{"none"}, maxInt: 3,
+		dataNames: n3, nackNames: []string{"/a"}, advNext: true},
+	// environment fault: the face goes Down (Engine.Stop; every Send fails, nothing arrives) and Up
+	// again (Engine.Start). Down is a deviation (explore.Config.MaxDev face-down periods per history).
+	// Interests expressed successfully before/after the fault must resolve exactly once; an Express
+	// that returned an error may resolve at most once (see intr.failed).
+	"fault": {faults: true, names: n2, cbps: []bool{false, true}, lives: []int{10, 20}, digs: []string{"none"}, maxInt: 3,
+		dataNames: n2, nackNames: []string{"/a"}, advNext: true},
+	// the same fault over duplicates that differ in the implicit digest only (they share a PIT node)
+	"faultd": {faults: true, names: []string{"/a"}, cbps: []bool{false}, lives: []int{10}, digs: []string{"none", "right", "wrong"}, maxInt: 3,
+		dataNames: []string{"/a"}, nackNames: []string{"/a"}, advNext: true},
 	// tiny alphabets for deep history searches WITHOUT de-duplication (explore.Config.NoDedup): a bug
 	// that adds hidden state no canonical form can see (cached node pointer, reused scratch slice)
 	// cannot be pruned away there
@@ -1354,22 +1505,27 @@ func main() {
 		ID: "C20", PanicClause: "C20.panic", Build: build,
 		Configs: func(th bool) []explore.Config {
 			type e struct {
-				n string
-				d int
+				n   string
+				d   int
+				dev int // 0: no deviation events in the universe (unbounded); else the bound on face-down periods
 			}
 			// cheap configurations first: what they do not use of their share of the budget goes to the rest
-			l := []e{{"reply i=0 in=2", 6}, {"ambigh i=0 in=2", 7}, {"ambig i=2 in=0", 6}, {"handler i=0 in=2", 8}, {"digest i=3 in=0", 7}, {"mixed i=2 in=1", 7}, {"typedh i=0 in=2", 8}, {"typed i=3 in=0", 7}, {"race i=4 in=0", 8}, {"names i=4 in=0", 7}, {"siblings i=4 in=0", 7}}
+			l := []e{{n: "faultd i=3 in=0", d: 8, dev: 1}, {n: "fault i=3 in=0", d: 6, dev: 1}, {n: "reuse i=3 in=0", d: 8}, {n: "reply i=0 in=2", d: 6}, {n: "ambigh i=0 in=2", d: 7}, {n: "ambig i=2 in=0", d: 6}, {n: "handler i=0 in=2", d: 8}, {n: "digest i=3 in=0", d: 7}, {n: "mixed i=2 in=1", d: 7}, {n: "typedh i=0 in=2", d: 8}, {n: "typed i=3 in=0", d: 7}, {n: "race i=4 in=0", d: 8}, {n: "names i=4 in=0", d: 7}, {n: "siblings i=4 in=0", d: 7}}
 			if th {
 				// audit-*: the same universes searched WITHOUT canonical-state de-duplication to a smaller
 				// depth; a violation key that only shows up there would mean the canonical form merges
 				// states with different futures.
-				l = []e{{"reply i=0 in=3", 9}, {"ambigh i=0 in=3", 8}, {"ambig i=4 in=0", 8}, {"digest i=4 in=0", 8}, {"mixed i=3 in=2", 9}, {"typedh i=0 in=3", 8}, {"typed i=4 in=0", 8}, {"race i=5 in=0", 10}, {"names i=5 in=0", 10}, {"siblings i=5 in=0", 10},
-					{"audit-race i=3 in=0", 5}, {"audit-names i=3 in=0", 4}, {"audit-handler i=0 in=2", 5},
-					{"handler i=0 in=3", 12}} // biggest last: it gets whatever budget the others left
+				l = []e{{n: "faultd i=4 in=0", d: 8, dev: 2}, {n: "fault i=4 in=0", d: 8, dev: 2}, {n: "reuse i=4 in=0", d: 8}, {n: "reply i=0 in=3", d: 9}, {n: "ambigh i=0 in=3", d: 8}, {n: "ambig i=4 in=0", d: 8}, {n: "digest i=4 in=0", d: 8}, {n: "mixed i=3 in=2", d: 9}, {n: "typedh i=0 in=3", d: 8}, {n: "typed i=4 in=0", d: 8}, {n: "race i=5 in=0", d: 10}, {n: "names i=5 in=0", d: 10}, {n: "siblings i=5 in=0", d: 10},
+					{n: "audit-race i=3 in=0", d: 5}, {n: "audit-names i=3 in=0", d: 4}, {n: "audit-handler i=0 in=2", d: 5},
+					{n: "handler i=0 in=3", d: 12}} // biggest last: it gets whatever budget the others left
 			}
 			var c []explore.Config
 			for _, x := range l {
-				c = append(c, explore.Config{Name: x.n, MaxDepth: x.d, MaxDev: -1})
+				md := -1
+				if x.dev > 0 {
+					md = x.dev
+				}
+				c = append(c, explore.Config{Name: x.n, MaxDepth: x.d, MaxDev: md})
 			}
 			// history searches without de-duplication (both tiers), last: they take what budget is left
 			hd, hh, dd := 6, 8, 5
@@ -1379,6 +1535,16 @@ func main() {
 			c = append(c, explore.Config{Name: "dummy i=3 in=0", MaxDepth: dd, MaxDev: -1, NoDedup: true},
 				explore.Config{Name: "tiny i=4 in=0", MaxDepth: hd, MaxDev: -1, NoDedup: true},
 				explore.Config{Name: "tinyh i=0 in=2", MaxDepth: hh, MaxDev: -1, NoDedup: true})
+			// development aid: C20_ONLY=<prefix> runs only the configurations whose name starts with it
+			if only := os.Getenv("C20_ONLY"); only != "" {
+				var k []explore.Config
+				for _, x := range c {
+					if strings.HasPrefix(x.Name, only) {
+						k = append(k, x)
+					}
+				}
+				c = k
+			}
 			return c
 		},
 		Budget: func(th bool) time.Duration {
@@ -1387,13 +1553,15 @@ func main() {
 			}
 			return 85 * time.Second
 		},
-		Rule: "BFS over event histories (Express with name/CanBePrefix/lifetime/implicit digest, Data and Nack arrivals, clock advances, timer Fire / RunFired as separate events, Attach/DetachHandler, incoming Interests, Reply) executed on a real basic.Engine with a harness face and a harness timer; every callback invocation is checked when it happens (at most once, Data satisfies the Interest, timeout not before lifetime, Nack only for its name), every Data arrival must resolve every pending Interest it satisfies, every incoming Interest (InterestLifetime absent = 4 s default / 0 / 10 / 20 ms; bare, in an LpPacket, in an LpPacket with a PIT token) must reach the handler at the longest attached prefix, Reply must transmit the Data (bare or as LpPacket fragment, never with a PIT token other than the Interest's) before and must not transmit after the deadline (clock steps of 10 ms and jumps exactly onto a deadline, where both answers are accepted); after every transition the quiescence closure (all timers fire and run) must leave every Interest resolved exactly once",
+		Rule: "BFS over event histories (Express with name/CanBePrefix/lifetime/implicit digest - from a fresh InterestConfig per Interest or from one config struct the application re-uses and overwrites while Interests are pending -, face Down/Up with Express failing to send in between, Data and Nack arrivals, clock advances, timer Fire / RunFired as separate events, Attach/DetachHandler, incoming Interests, Reply) executed on a real basic.Engine with a harness face and a harness timer; every callback invocation is checked when it happens (at most once, Data satisfies the Interest, timeout not before lifetime, Nack only for its name), every Data arrival must resolve every pending Interest it satisfies, every incoming Interest (InterestLifetime absent = 4 s default / 0 / 10 / 20 ms; bare, in an LpPacket, in an LpPacket with a PIT token) must reach the handler at the longest attached prefix, Reply must transmit the Data (bare or as LpPacket fragment, never with a PIT token other than the Interest's) before and must not transmit after the deadline (clock steps of 10 ms and jumps exactly onto a deadline, where both answers are accepted); after every transition the quiescence closure (all timers fire and run) must leave every Interest resolved exactly once",
 		Assumptions: []string{
 			"timer/receive interleavings are explored at the granularity of whole engine callbacks: the engine holds pitLock for the whole of onData/onNack/timeoutFunc, and starts no goroutine itself, so finer interleavings do not exist",
 			"the harness timer has time.AfterFunc semantics: cancel is effective only until the timer has fired; a fired timer's callback may run arbitrarily later (goroutine blocked on pitLock)",
 			"equal canonical state (reachable PIT/FIB tries, PIT-node chains captured by live timers and pending Interests, timer deadlines and Interest deadlines relative to now saturated at 'due', per-Interest results, pending handler invocations) implies equal futures",
 			"an incoming Interest without InterestLifetime element has the protocol default lifetime of 4 s (NDN packet format); its deadline is arrival + lifetime; at the deadline instant itself both transmitting and refusing the reply are accepted; the property does not prescribe the link framing of a reply nor that the Interest's PIT token is echoed, only a frame carrying a different token is rejected",
 			"a Nack for name N may (not must) resolve pending Interests whose name without the implicit-digest component is N; the property is silent on whether a Nack must be delivered",
+			"application memory: an ndn.InterestConfig handed to MakeInterest/Express belongs to the application, which may overwrite it (CanBePrefix, MustBeFresh, the lifetime variable behind Lifetime) as soon as Express has returned; the Interest keeps the selectors and lifetime it was expressed with",
+			"face fault: Engine.Stop/Start close and re-open the face (at most 1 (quick) / 2 (thorough) down periods per history); while it is down nothing arrives and Send fails. An Interest whose Express returned an error may be resolved at most once or never (the property does not say whether it counts as expressed); every other Interest, expressed before, during (none succeed) or after the fault, must resolve exactly once; a Reply while the face is down need not be transmitted",
 			"finite universes: names /a,/a/b,/a/b/c,/a/c (+/x Data; prefixes down to /a/b/c/d and /a/x,/a/b/c/x for incoming Interests; /a/seg=1,/a/v=1,/a/%01 for component types; /a/v=1,/a/v%3D1,/a/9=x,/a/9%3Dx,/a/x,/a/32=x for look-alike components), lifetimes 10/20 ms (incoming Interests also 0 and no InterestLifetime element), at most 4 (quick) / 5 (thorough) expressed Interests and 2/3 incoming Interests per history",
 		},
 	})
